@@ -109,6 +109,8 @@ let parse_pat_nth (s : string) : (bool * n) list =
 let parse_fin s = match s with "drop" -> FinDrop | "forget" -> FinForget | _ -> fail_parse "fin" s
 let parse_ik s = match s with
   | "ref" -> IRef | "mut" -> IMut | "tref" -> ITypedRef | "tmut" -> ITypedMut
+  (* the same iterators reached through the IntoIterator impls of &AnyVec, &mut AnyVec, AnyVecRef, AnyVecMut *)
+  | "iref" -> IRef | "imut" -> IMut | "itref" -> ITypedRef | "itmut" -> ITypedMut
   | _ -> fail_parse "iterkind" s
 let parse_rk s = match split ':' s with
   | ["w"] -> RWrap | ["box"] -> RBox | ["lz"; vid] -> RLazy (nat_of_string vid)
